@@ -115,3 +115,54 @@ def c10_repl_stage(seed, tier, rundir, log):
             res["samples"].append({"repl_session": subject[:8]})
     note = "repl stage: %d sessions through %s in %.1fs" % (n, xeh, time.time() - t0)
     return (note, [({}, res, None)], {})
+
+
+# ---------------------------------------------------------------------------------------------- C16: reference vectors for reals
+def c16_float_vectors(seed, tier, rundir):
+    """decimal spellings with their IEEE-754 double as Python's float() converts them (an implementation independent of the
+    one the lexer uses); ERR when Python rejects the spelling"""
+    import struct
+    rng = random.Random(seed * 104729 + 7)
+    n = 20000 if tier == "quick" else 200000
+    path = os.path.join(rundir, "float_vectors.tsv")
+    fixed = ["0.0", "-0.0", "1.", "1.e3", "1.5e", "1.5e+", "0.1", "0.2", "0.30000000000000004", "9007199254740993.0", "9007199254740992.5",
+             "1.7976931348623157e308", "1.7976931348623159e308", "1.8e308", "4.9e-324", "2.4703282292062327e-324", "2.4703282292062328e-324",
+             "2.2250738585072014e-308", "2.2250738585072011e-308", "1.0e400", "1.0e-400", "123456789012345678901234567890.5", "00.5", "1.5E3",
+             "1.5e+3", "1.5e-3", "+1.5", "-1.5", "1_000.5", "1._5", "1.5_e3", "1..5", "1.2.3", "1.e", "1.5e3.2", "1.5f", "1.5d", "0.1e-00007",
+             "179769313486231580793728971405303415079934132710037826936173778980444968292764750946649017977587207096330286416692887910946555547851940402630657488671505820681908902000708383676273854845817711531764475730270069855571366959622842914819860834936475292719074168444365510704342711559699508093042880177904174497791.9"]
+    out = []
+    def add(t):
+        clean = t.replace("_", "")
+        try:
+            # Python accepts spellings (inf, nan, surrounding blanks, 1e5) that can never reach the real branch of the lexer;
+            # every text here starts with a digit or a sign+digit and contains a '.'
+            v = float(clean)
+            bits = struct.unpack("<Q", struct.pack("<d", v))[0]
+            out.append("%s\t%016x" % (t, bits))
+        except ValueError:
+            out.append("%s\tERR" % t)
+    for t in fixed:
+        add(t)
+    while len(out) < n:
+        sign = rng.choice(["", "", "-", "+"])
+        il = rng.choice([1, 1, 2, 5, 17, 20, 40])
+        fl = rng.choice([0, 1, 2, 5, 17, 25, 60])
+        ip = "".join(rng.choice("0123456789") for _ in range(il))
+        fp = "".join(rng.choice("0123456789") for _ in range(fl))
+        k = rng.randrange(8)
+        if k == 0:
+            ex = "e%d" % rng.randrange(-340, 320)
+        elif k == 1:
+            ex = "E%s%d" % (rng.choice(["+", "-", ""]), rng.randrange(0, 330))
+        elif k == 2:
+            ex = rng.choice(["e", "e+", "ee5", "e5.5", "x", "e-"])
+        else:
+            ex = ""
+        t = sign + ip + "." + fp + ex
+        if rng.random() < 0.1 and len(ip) > 1:
+            at = rng.randrange(1, len(ip))
+            t = sign + ip[:at] + "_" + ip[at:] + "." + fp + ex
+        add(t)
+    with open(path, "w") as f:
+        f.write("\n".join(out) + "\n")
+    return {"XV_FLOAT_VECTORS": path}
